@@ -114,7 +114,9 @@ def c20_configs(repo):
     # "any supported compiler setting ... including kernel-mode and bare-metal": further settings under which the pinned core builds cleanly
     # (position-independent code as for a shared object, general registers only / no FPU as in kernel code, 32-bit soft-float)
     for cc in ("gcc", "clang"):
-        for extra in (["-fPIC"], ["-mgeneral-regs-only"], ["-mno-sse", "-mno-mmx", "-mno-80387", "-msoft-float"], ["-m32", "-msoft-float"], ["-m32", "-fpic"]):
+        for extra in (["-fPIC"], ["-mgeneral-regs-only"], ["-mno-sse", "-mno-mmx", "-mno-80387", "-msoft-float"], ["-m32", "-msoft-float"], ["-m32", "-fpic"],
+                      ["-m32", "-march=i386"],                                                        # no native atomic read-modify-write: C11 atomics become libatomic calls
+                      ["-fexceptions", "-fstack-protector-strong", "-fasynchronous-unwind-tables"]):   # what distribution packaging passes: cleanup handlers need the unwinder
             for opt, mode in (("-O2", "freestanding"), ("-O0", "hosted")):
                 if mode == "hosted" and "-m32" in extra:
                     continue   # no 32-bit C library headers on this machine: 32-bit settings are freestanding only
